@@ -241,3 +241,50 @@ func VHC11Syntax() {
 	vh.Assert(k == ErrSyntax, "C11: `"+lbl(f)+"` is a syntax error")
 	vh.Assert(out.String() == "", "C11: a program with a syntax error produces no output at all")
 }
+
+var c11Valid = [][]string{
+	{"BEGIN", "{", "print", "'a'", ";", "print", "'b'", "}", "END", "{", "print", "'end'", "}"},
+	{"function", "f", "(", "a", ",", "b", ")", "{", "return", "a", "+", "b", ";", "}", "BEGIN", "{", "x", "=", "f", "(", "1", ",", "2", ")", ";", "print", "x", ";", "}"},
+	{"BEGIN", "{", "for", "(", "i", "=", "0", ";", "i", "<", "2", ";", "i", "++", ")", "{", "print", "i", ";", "}", "if", "(", "i", ")", "{", "print", "[", "1", ",", "2", "]", ";", "}", "else", "{", "print", "{", "k", ":", "1", "}", "}", "}"},
+	{"BEGIN", "{", "print", "'s'", ";", "x", "=", "match", "(", "1", ")", "{", "1", "=>", "2", ",", "z", "=>", "3", "}", "while", "(", "x", ">", "0", ")", "{", "x", "--", ";", "}", "print", "x", "}"},
+}
+
+// VHC11SyntaxAnywhere: a character no token can begin with, between any two tokens of a
+// valid program (with or without blanks around it), is a syntax error and pre-empts all
+// execution.
+func VHC11SyntaxAnywhere() {
+	toks := c11Valid[vh.Choose("prog", len(c11Valid))]
+	pos := vh.Choose("pos", 44)
+	if pos > len(toks) {
+		return
+	}
+	bad := string([]byte{vh.ByteFrom("bad", "@?^`\\$#")})
+	if bad == "$" || bad == "#" {
+		return // `$` is a token and `#` begins a comment: not illegal characters
+	}
+	glue := []string{" ", ""}[vh.Choose("glue", 2)]
+	prog := ""
+	for i, t := range toks {
+		if i == pos {
+			prog += bad + glue
+		}
+		prog += t + " "
+	}
+	if pos == len(toks) {
+		prog += bad
+	}
+	var out vh.Out
+	_, err := lang.EvalProgram(prog, nil, nil, &out, false)
+	k := legal(err, "EvalProgram")
+	vh.Reach("illegal character placed")
+	vh.Assert(k == ErrSyntax, "C11: an illegal character anywhere in the program is a syntax error")
+	vh.Assert(out.String() == "", "C11: a program with an illegal character produces no output at all")
+	// the same program without it runs
+	clean := ""
+	for _, t := range toks {
+		clean += t + " "
+	}
+	var out2 vh.Out
+	_, err2 := lang.EvalProgram(clean, nil, nil, &out2, false)
+	vh.Assert(legal(err2, "EvalProgram") == OK && out2.Len() > 0, "C11: the program without the illegal character runs and prints")
+}
